@@ -154,7 +154,10 @@ class PathCtx:
         """True / False if sign lemmas (pyvc.signs) settle the comparison, else None."""
         if not SIGN_LEMMAS[0]:
             return None
-        from .signs import sign_decides
+        if SIGN_ENGINE[0] == '2':
+            from .signs2 import sign_decides
+        else:
+            from .signs import sign_decides
         return sign_decides(self, cond)
 
     def feasible(self, cond):
@@ -293,6 +296,7 @@ class PathCtx:
 
 CROSSCHECK = dict(per_clause=0, seen={})
 SIGN_LEMMAS = [os.environ.get('VERIF_SIGN_LEMMAS', '1') != '0']
+SIGN_ENGINE = [os.environ.get('VERIF_SIGNS', '1')]
 GAVE_UP = {}        # clause name -> number of paths of the current unit on which it stayed undecided
 
 
